@@ -397,26 +397,27 @@ func ruleNilRet(c *Ctx, r *Rep, tier string) {
 
 // panicTable: every explicit panic in the library, reviewed by reading.
 // key = function name, value = classification and reason. Classes:
-//   contract: reachable only through misuse of the API by the caller (argument
-//             the API documents as illegal), not through decoded input;
-//   internal: internal consistency check that decoded input cannot reach;
-//   recover:  re-panic / panic that a deferred recover in the same package
-//             converts into an error.
+//
+//	contract: reachable only through misuse of the API by the caller (argument
+//	          the API documents as illegal), not through decoded input;
+//	internal: internal consistency check that decoded input cannot reach;
+//	recover:  re-panic / panic that a deferred recover in the same package
+//	          converts into an error.
 var panicTable = map[string]string{
-	"bgzf.newCountReader":             "internal: a countReader is never passed back in by the library",
-	"bgzf.(*buffer).readLimited":      "internal: readMember resets the buffer before every call (checked: reset dominates the call)",
+	"bgzf.newCountReader":              "internal: a countReader is never passed back in by the library",
+	"bgzf.(*buffer).readLimited":       "internal: readMember resets the buffer before every call (checked: reset dominates the call)",
 	"bgzf.(*decompressor).nextBlockAt": "internal: offset out of register without a ReadSeeker cannot happen unless Seek was called, which requires a ReadSeeker",
-	"bgzf.(*Reader).nextBlock":        "internal: the read-ahead pipeline delivers blocks in offset order",
-	"bgzf.init#1":                     "internal: compile-time constant relation, evaluated at start-up",
-	"sam.NewCigarOp":                  "contract: length argument supplied by the API user (the BAM reader constructs CigarOps by conversion, not through NewCigarOp)",
-	"sam.NewTag":                      "contract: documented – panics if len(tag) != 2; not called by any decoder with input-derived text (checked: NO-CALLER-FROM-DECODER)",
-	"sam.formatFlags":                 "contract: flag format chosen by the caller of MarshalSAMFlags",
-	"sam.(*Record).Tag":               "contract: documented – the caller passes a tag shorter than two bytes",
-	"sam.Aux.Value":                   "internal: unreachable while the Aux invariant holds (payload length matches the declared type/count), established by bam.parseAux, sam.NewAux, sam.ParseAux",
-	"fai.Record.Position":             "contract: documented – position outside [0, Length) is the caller's error",
-	"fai.mustAtoi":                    "recover: converted to an error by ReadFrom's deferred recover",
-	"fai.mustAtoi64":                  "recover: converted to an error by ReadFrom's deferred recover",
-	"fai.ReadFrom$1":                  "recover: re-panics only values that are not parse errors",
+	"bgzf.(*Reader).nextBlock":         "internal: the read-ahead pipeline delivers blocks in offset order",
+	"bgzf.init#1":                      "internal: compile-time constant relation, evaluated at start-up",
+	"sam.NewCigarOp":                   "contract: length argument supplied by the API user (the BAM reader constructs CigarOps by conversion, not through NewCigarOp)",
+	"sam.NewTag":                       "contract: documented – panics if len(tag) != 2; not called by any decoder with input-derived text (checked: NO-CALLER-FROM-DECODER)",
+	"sam.formatFlags":                  "contract: flag format chosen by the caller of MarshalSAMFlags",
+	"sam.(*Record).Tag":                "contract: documented – the caller passes a tag shorter than two bytes",
+	"sam.Aux.Value":                    "internal: unreachable while the Aux invariant holds (payload length matches the declared type/count), established by bam.parseAux, sam.NewAux, sam.ParseAux",
+	"fai.Record.Position":              "contract: documented – position outside [0, Length) is the caller's error",
+	"fai.mustAtoi":                     "recover: converted to an error by ReadFrom's deferred recover",
+	"fai.mustAtoi64":                   "recover: converted to an error by ReadFrom's deferred recover",
+	"fai.ReadFrom$1":                   "recover: re-panics only values that are not parse errors",
 }
 
 func rulePanicReach(c *Ctx, r *Rep, tier string) {
